@@ -800,7 +800,33 @@ func (ex *exec) shift(st *State, op token.Token, t types.Type, l, r *Term, rt ty
 	}
 	if ex.mode == ModeInt {
 		if !r.IsConst() {
-			ex.fail(pos, "variable shift in int mode")
+			// variable shift amount: exact case analysis over the amounts 0..w-1 (Go: an amount >= the width
+			// gives 0 for << and for >> of a non-negative operand; a negative signed amount panics)
+			if _, rs, ok := ex.intWidth(rt); ok && rs {
+				ex.oblige(st, "shift", "nonneg", IntLe(IntC64(0), r), pos)
+			}
+			if op == token.SHR {
+				if l0, _, ok := Range(l); !ok || l0.Sign() < 0 {
+					if !ex.lemma(st, IntLe(IntC64(0), l), "shr-nonneg", pos) {
+						ex.fail(pos, "variable right shift of a possibly negative operand in int mode")
+					}
+				}
+			}
+			res := IntC64(0)
+			for k := w - 1; k >= 0; k-- {
+				p := new(big.Int).Lsh(big.NewInt(1), uint(k))
+				var v *Term
+				if op == token.SHL {
+					v = IntScale(l, p)
+				} else {
+					v = IntDiv(l, IntC(p))
+				}
+				res = Ite(Eq(r, IntC64(int64(k))), v, res)
+			}
+			if op == token.SHL {
+				return ex.wrap(st, res, w, signed, pos)
+			}
+			return res
 		}
 		k := uint(r.Val.Int64())
 		p := new(big.Int).Lsh(big.NewInt(1), k)
